@@ -699,6 +699,16 @@ fn stmt_expr_variants(s: &Stmt) -> Vec<Stmt> {
                 }
             }
         }
+        Stmt::LoopTryBreak(v, id, pre, val, handler) => {
+            out.push(Stmt::Assign(*v, val.clone()));
+            for b2 in block_variants(pre) {
+                out.push(Stmt::LoopTryBreak(*v, *id, b2, val.clone(), handler.clone()));
+            }
+            for b2 in block_variants(handler) {
+                out.push(Stmt::LoopTryBreak(*v, *id, pre.clone(), val.clone(), b2));
+            }
+            out.extend(expr_variants(val).into_iter().map(|x| Stmt::LoopTryBreak(*v, *id, pre.clone(), x, handler.clone())));
+        }
         Stmt::AddAssign(v, e) => {
             out.push(Stmt::Assign(*v, e.clone()));
             out.extend(expr_variants(e).into_iter().map(|x| Stmt::AddAssign(*v, x)));
@@ -907,6 +917,7 @@ fn calls_func(b: &Block, func: usize) -> bool {
             | Stmt::ChainAssign(_, e)
             | Stmt::Expr(e) => in_expr(e, func),
             Stmt::MatchAssign(_, e, e2) => in_expr(e, func) || in_expr(e2, func),
+            Stmt::LoopTryBreak(_, _, pre, val, handler) => in_block(pre) || in_expr(val, func) || in_block(handler),
             Stmt::AssignLambdaCall(_, f2, e, _) => *f2 == func || in_expr(e, func),
             Stmt::AssignList(es) => es.iter().any(|e| in_expr(e, func)),
             Stmt::AssignStr(ps) => ps.iter().any(|p| matches!(p, StrPart::Int(e) if in_expr(e, func))),
